@@ -88,6 +88,8 @@ pub struct Dec<'a> {
     pub forms: Vec<bool>,
     /// for every deduplicated string read: was it written in full (true) or as a back-reference (false)
     pub dedup_forms: Vec<bool>,
+    /// the largest non-negative count met at a sequence whose elements have an empty encoding
+    pub zero_width_max: usize,
     depth: usize,
 }
 
@@ -95,7 +97,7 @@ const MAX_DEPTH: usize = 4000;
 
 impl<'a> Dec<'a> {
     pub fn new(buf: &'a [u8]) -> Self {
-        Dec { buf, pos: 0, end: buf.len(), strings: Vec::new(), annots: Vec::new(), annotate: false, forms: Vec::new(), dedup_forms: Vec::new(), depth: 0 }
+        Dec { buf, pos: 0, end: buf.len(), strings: Vec::new(), annots: Vec::new(), annotate: false, forms: Vec::new(), dedup_forms: Vec::new(), zero_width_max: 0, depth: 0 }
     }
 
     pub fn pos(&self) -> usize {
@@ -234,6 +236,9 @@ impl<'a> Dec<'a> {
         } else if n < 0 {
             return err(ErrKind::NegativeLength, format!("sequence count {n}"));
         } else {
+            if elem.may_encode_empty() {
+                self.zero_width_max = self.zero_width_max.max(n as usize);
+            }
             if let Some(e) = expect {
                 if n as usize != e {
                     return err(ErrKind::CountMismatch, format!("count {n}, container holds {e}"));
@@ -659,6 +664,13 @@ pub fn ref_decode(ty: &Ty, bytes: &[u8]) -> Result<(Val, usize), DecErr> {
     let mut d = Dec::new(bytes);
     let v = d.decode(ty)?;
     Ok((v, d.pos))
+}
+
+/// the largest count of zero-width elements the input asks for on the path the strict decoder walks (whatever happens after)
+pub fn ref_zero_width_demand(ty: &Ty, bytes: &[u8]) -> usize {
+    let mut d = Dec::new(bytes);
+    let _ = d.decode(ty);
+    d.zero_width_max
 }
 
 /// decode and also return the size form met at every sequence position (for byte-exact re-encoding of foreign data)
